@@ -293,6 +293,48 @@ func runC07(c *fw.Ctx) {
 	c.Cases("pinned", len(pins), true, func(i int, r *rng.R) {
 		c07Pair(c, r, pins[i][0], pins[i][1], "pinned")
 	})
+	// long lists that differ only near the end (and equal long lists)
+	c.Cases("long-lists", c.N(60, 3000), false, func(i int, r *rng.R) {
+		n := []int{33, 64, 65, 127, 129, 255, 257, 511, 513, 514, 515, 1023, 1025, 2049, 4099}[r.Intn(15)]
+		a := &spec.Spec{K: spec.List}
+		for j := 0; j < n; j++ {
+			switch r.Intn(4) {
+			case 0:
+				a.L = append(a.L, spec.StrV(c05Strs[r.Intn(len(c05Strs))]))
+			case 1:
+				a.L = append(a.L, spec.FloatV(float64(r.Intn(9))))
+			default:
+				a.L = append(a.L, spec.IntV(r.Intn(9)))
+			}
+		}
+		b := a.Clone()
+		desc := "equal long lists"
+		pos := n - 1 - r.Intn(4)
+		switch r.Intn(5) {
+		case 0:
+		case 1:
+			b.L[pos] = lookalike(r, b.L[pos])
+			desc = fmt.Sprintf("kind swap at %d of %d", pos, n)
+		case 2:
+			b.L[pos] = spec.ListV(b.L[pos])
+			desc = fmt.Sprintf("element %d of %d wrapped in a list", pos, n)
+		case 3:
+			b.L = b.L[:n-1]
+			desc = "last element removed"
+		default:
+			pos = r.Intn(n)
+			b.L[pos] = spec.StrV("different")
+			desc = fmt.Sprintf("element %d of %d replaced", pos, n)
+		}
+		root := r.Intn(3)
+		if root == 1 {
+			a, b = spec.ObjV("k", a), spec.ObjV("k", b)
+		} else if root == 2 {
+			a, b = spec.ListV(spec.IntV(1), a), spec.ListV(spec.IntV(1), b)
+		}
+		c.Count("long_list_pairs")
+		c07Pair(c, r, a, b, desc)
+	})
 	c.Cases("pairs", c.N(5000, 3000000), false, func(i int, r *rng.R) {
 		root := spec.List
 		if r.Bool() {
@@ -303,6 +345,7 @@ func runC07(c *fw.Ctx) {
 		c.Count("edit/" + desc[:minInt(len(desc), 14)])
 		c07Pair(c, r, a, b, desc)
 	})
+	historyCases(c, "history", 600, 60000, probeEquals)
 	// triples from a small pool: equal triples are frequent, so transitivity is exercised
 	c.Cases("triples", c.N(1000, 500000), false, func(i int, r *rng.R) {
 		root := spec.List
